@@ -26,7 +26,7 @@ def run(rep):
     explore.explore(rep, 'family-d1', fam, 1, bases, 'checks.oracles:oracle_c03', budget_s=600 if quick else 1500)
 
     if not quick:
-        core = [s for s in fam if s['name'].split('/')[0] in ('chain3', 'rejoin2', 'tee', 'join2', 'chain3start')][:24]
+        core = [s for s in fam if s['name'].split('/')[0] in ('chain3', 'chain3s', 'rejoin2', 'tee', 'join2', 'chain3start', 'chain3join', 'tee-required-prefix')]
         explore.explore(rep, 'core-d2', core, 2, ['fifo'], 'checks.oracles:oracle_c03', budget_s=1500)
 
     rep.assumption('distinct_nontrivial = executions with pairwise different timed wire traces (every message sent / delivered / dropped with its virtual time), per scenario; distinct_outcomes = distinct per-filter process() input sequences per scenario')
